@@ -59,8 +59,8 @@ func c13Judge(k c13Case) *vlib.Failure {
 			return vlib.Failf("%q (%s) rejected with Reason %q", k.Pattern, k.How, u.Reason)
 		}
 	}
-	if n != 1 {
-		return vlib.Failf("%q (%s) rejected with %d errors, want exactly one", k.Pattern, k.How, n)
+	if n == 0 {
+		return vlib.Failf("%q (%s) rejected with an error tree that holds no error", k.Pattern, k.How)
 	}
 	return nil
 }
